@@ -161,6 +161,10 @@ def _tkey(kw):
     return tuple(out)
 
 
+class NotEvaluable(Exception):
+    """a clause cannot be judged in floating point at this input"""
+
+
 def _const(v):
     return v
 
@@ -221,10 +225,10 @@ def approx_eq(a, b, rtol=None):
             isinstance(b, (int, float, np.floating, np.integer)):
         a = float(a)
         b = float(b)
-        if math.isnan(a) or math.isnan(b):
-            ok = False
-        elif math.isinf(a) or math.isinf(b):
-            ok = a == b
+        if math.isnan(a) or math.isnan(b) or math.isinf(a) or math.isinf(b):
+            # overflow / 0*inf at a corner of the domain: the comparison says
+            # nothing about the real-number clause; the sample is skipped
+            raise NotEvaluable('non-finite value in a comparison (%r, %r)' % (a, b))
         else:
             ok = abs(a - b) <= rtol * max(abs(a), abs(b)) + 1e-12 * rtol / 1e-9 \
                 if max(abs(a), abs(b)) > 1e-300 else True
@@ -269,6 +273,25 @@ class _Rewrite(ast.NodeTransformer):
                     defaults=[]), body=body)
             return ast.Call(func=ast.Name('_D', ast.Load()),
                             args=[lam, node.args[1]], keywords=[])
+        if isinstance(node.func, ast.Name) and node.func.id == 'D' and len(node.args) == 2 and \
+                isinstance(node.args[1], ast.Subscript) and isinstance(node.args[1].value, ast.Name):
+            # D(e, x[k]): derivative with respect to one component - inside e
+            # the sequence x is replaced by a copy whose k-th entry is the
+            # lambda variable
+            seq = node.args[1].value.id
+            idx = node.args[1].slice
+
+            class _Sub(ast.NodeTransformer):
+                def visit_Name(self, n):
+                    if n.id == seq and isinstance(n.ctx, ast.Load):
+                        return ast.Call(func=ast.Name('_with', ast.Load()),
+                                        args=[ast.Name(seq, ast.Load()), idx, ast.Name('_dv', ast.Load())], keywords=[])
+                    return n
+            import copy as _copy
+            body = self.visit(_Sub().visit(_copy.deepcopy(node.args[0])))
+            lam = ast.Lambda(
+                args=ast.arguments(posonlyargs=[], args=[ast.arg('_dv')], kwonlyargs=[], kw_defaults=[], defaults=[]), body=body)
+            return ast.Call(func=ast.Name('_D', ast.Load()), args=[lam, node.args[1]], keywords=[])
         if isinstance(node.func, ast.Name) and node.func.id == 'old' and \
                 len(node.args) == 1:
             src = ast.unparse(node.args[0])
@@ -326,6 +349,18 @@ def clause_eq(a, b):
     return approx_eq(a, b)
 
 
+def _with(seq, k, v):
+    """copy of a sequence with entry k replaced (component-wise derivative)"""
+    import numpy as np
+    if isinstance(seq, np.ndarray):
+        out = np.array(seq, dtype=float)
+        out[k] = v
+        return out
+    out = list(seq)
+    out[k] = v
+    return out if isinstance(seq, list) else type(seq)(out)
+
+
 def _ne_eq(a, b):
     # the equality test inside `a != b` (a guard, not an asserted equality):
     # not part of the comparison trace
@@ -345,6 +380,7 @@ def eval_clause(text, env, pre_env):
     g['_eq'] = clause_eq
     g['_ne_eq'] = _ne_eq
     g['_D'] = _D
+    g['_with'] = _with
 
     def _old(src):
         t2 = ast.parse(src, mode='eval')
@@ -353,6 +389,7 @@ def eval_clause(text, env, pre_env):
         g2 = dict(pre_env)
         g2['_eq'] = clause_eq
         g2['_ne_eq'] = _ne_eq
+        g2['_with'] = _with
         g2['_D'] = _D
         return eval(compile(t2, '<old>', 'eval'), g2)
     g['_old'] = _old
@@ -374,6 +411,13 @@ def _cell(path, i, j):
     return v.strip() if isinstance(v, str) else v
 
 
+def _ext_call(name, k=-1):
+    calls = [c for c in _EXT_CALLS if c[0] == name]
+    if not calls:
+        raise NotEvaluable('no recorded call of %s on the native side' % name)
+    return calls[k][1]
+
+
 def clause_env(spec_root):
     import numpy as np
     if spec_root not in sys.path:
@@ -382,9 +426,20 @@ def clause_env(spec_root):
     import pmutt.constants as const
     from scipy.integrate import quad as _quad
     import pmutt as pm
+    # submodules that clauses reach through `pm.` (pvc resolves them lazily)
+    for sub in ('pmutt.cantera', 'pmutt.cantera.units', 'pmutt.cantera.phase', 'pmutt.omkm', 'pmutt.omkm.units', 'pmutt.omkm.phase',
+                'pmutt.omkm.reaction', 'pmutt.io.thermdat', 'pmutt.io.json', 'pmutt.io.omkm', 'pmutt.io.cantera', 'pmutt.io.chemkin',
+                'pmutt.io.excel', 'pmutt.reaction', 'pmutt.reaction.bep', 'pmutt.reaction.phasediagram', 'pmutt.eos', 'pmutt.mixture',
+                'pmutt.mixture.cov', 'pmutt.empirical', 'pmutt.empirical.nasa', 'pmutt.empirical.shomate', 'pmutt.empirical.references',
+                'pmutt.statmech', 'pmutt.statmech.vib', 'pmutt.statmech.rot', 'pmutt.statmech.trans', 'pmutt.statmech.elec',
+                'pmutt.statmech.nucl', 'pmutt.statmech.lsr', 'pmutt.chemkin', 'pmutt.equilibrium'):
+        try:
+            importlib.import_module(sub)
+        except Exception:
+            pass
     _install_recorders()
     env = {'spec': spec, 'const': const, 'pm': pm, 'cell': _cell,
-           'ext_call': lambda name, k=-1: [c for c in _EXT_CALLS if c[0] == name][k][1],
+           'ext_call': _ext_call,
            'integral': lambda f, a, b: _quad(f, a, b)[0], 'np': np, 'log': np.log, 'exp': np.exp,
            'sqrt': np.sqrt, 'pi': math.pi,
            'implies': lambda a, b: (not a) or b, 'eq': approx_eq,
@@ -417,6 +472,17 @@ def _install_recorders():
             return real_dump(data, stream, **kw)
         yaml.dump = dump
     except ImportError:
+        pass
+    try:
+        import pmutt.equilibrium._equilibrium as _eq
+        real_min = _eq.minimize
+
+        def minimize(fun, x0, args=(), **kw):
+            res = real_min(fun, x0, args=args, **kw)
+            _EXT_CALLS.append(('minimize', dict(kw, fun=fun, x0=x0, args=args, result=res)))
+            return res
+        _eq.minimize = minimize
+    except Exception:
         pass
 
 
@@ -553,6 +619,8 @@ def run_job(job):
             _CMP_LOG = []
         try:
             cl.append(bool(eval_clause(c, post_env, pre_env)))
+        except NotEvaluable as e:
+            cl.append('skip: %s' % str(e)[:120])
         except Exception as e:
             cl.append('error: %s: %s' % (type(e).__name__, str(e)[:200]))
         if job.get('trace_cmp'):
